@@ -195,5 +195,38 @@ def correspondence(ctx):
                                     "implied by the model agreement and additionally visible in the sample lines"}
 
 
+def search(ctx):
+    """The helper formulas left_subtree_len / max_subtree_len are TRANSLATED into the model (gen/GenFormulas.v), so a
+    changed formula changes model and implementation alike and only the proof about the formula breaks.  The search
+    therefore compares the implementation's `lsl` / `msl` results with the property's own words: the largest power of
+    two strictly below n; the lowest set bit of the offset (none at 0)."""
+    import verif
+    n = nf = 0
+    for name, cases, ires, drv, build in ctx.runs:
+        flavour, _, profile = build.partition("/")
+        for line in cases:
+            t = line.split(" ")
+            if len(t) < 3 or t[1] not in ("lsl", "msl"):
+                continue
+            v = int(t[2])
+            spec = str(1 << ((v - 1).bit_length() - 1)) if t[1] == "lsl" else ("none" if v == 0 else str(v & -v))
+            i_ = ires.get(t[0], "MISSING")
+            if i_.startswith("CRASH") or i_ == "MISSING":
+                # a panic in this or an earlier case of the same process: run the case in a process of its own
+                b = ctx.need_harness(flavour, profile)
+                i_ = verif.run_lines(b, [line], shards=1).get(t[0], "MISSING") if b else i_
+                if i_.startswith("CRASH"):
+                    i_ = "PANIC"
+            n += 1
+            if i_.split() != [spec]:
+                nf += 1
+                ctx.failures.append({"correspondence": name + " (search: helper formula vs the property's definition)",
+                                     "case": " ".join(t[1:]), "model": spec, "impl": i_, "build": build,
+                                     "oracle": "largest power of two below n / lowest set bit of the offset, computed "
+                                               "directly (tools/props/C09.py search)"})
+    ctx.log("search on the helper formulas: %d values compared with their definition, %d failing inputs" % (n, nf))
+    ctx.stats["search/helper-formulas"] = {"cases": n, "disagreements": nf}
+
+
 def classify(f):
     return None
